@@ -1,5 +1,7 @@
 /- lemmas about Model/Strategy.lean (used by Props/C08) -/
 import MysticVerif.Model.Strategy
+import MysticVerif.Proofs.Solver
+import MysticVerif.Proofs.NelderMead
 import Mathlib.Tactic.SplitIfs
 
 namespace MysticVerif.Strategy
@@ -218,3 +220,97 @@ theorem binLoop_spec [LT R] [DecidableLT R] [Inhabited R] (mu : R → Nat → R)
         simp only [this]
 
 end MysticVerif.Strategy
+
+/-! ### selection (Model/Solver.lean `DE.select`, `DE.selectAll`) -/
+namespace MysticVerif.Solver
+
+variable {X E : Type}
+
+/-- what one `select` does to every slot of the population and of the energies -/
+theorem DE.select_slot [LT E] [DecidableLT E] (s : DE X E) (i : Nat) (y : X) (e : E) (j : Nat) :
+    ((s.select i y e).pop[j]? = s.pop[j]? ∧ (s.select i y e).popE[j]? = s.popE[j]?) ∨
+    (j = i ∧ ∃ ei, s.popE[i]? = some ei ∧ e < ei ∧ (s.select i y e).pop = s.pop.set i y ∧
+      (s.select i y e).popE = s.popE.set i e) := by
+  unfold DE.select
+  split
+  · exact Or.inl ⟨rfl, rfl⟩
+  · rename_i ei hei
+    split_ifs with h1 h2
+    · by_cases hj : j = i
+      · exact Or.inr ⟨hj, ei, hei, h1, rfl, rfl⟩
+      · refine Or.inl ⟨?_, ?_⟩ <;> simp [List.getElem?_set, Ne.symm hj]
+    · by_cases hj : j = i
+      · exact Or.inr ⟨hj, ei, hei, h1, rfl, rfl⟩
+      · refine Or.inl ⟨?_, ?_⟩ <;> simp [List.getElem?_set, Ne.symm hj]
+    · exact Or.inl ⟨rfl, rfl⟩
+
+theorem DE.select_lengths [LT E] [DecidableLT E] (s : DE X E) (i : Nat) (y : X) (e : E) :
+    (s.select i y e).pop.length = s.pop.length ∧ (s.select i y e).popE.length = s.popE.length := by
+  unfold DE.select
+  split
+  · exact ⟨rfl, rfl⟩
+  · split_ifs <;> simp
+
+/-- slots below the running index are not touched by the rest of the generation -/
+theorem DE.selectAll_below [LT E] [DecidableLT E] :
+    ∀ (ys : List (X × E)) (i0 : Nat) (s : DE X E) (j : Nat), j < i0 →
+      (DE.selectAll ys i0 s).pop[j]? = s.pop[j]? ∧ (DE.selectAll ys i0 s).popE[j]? = s.popE[j]? := by
+  intro ys
+  induction ys with
+  | nil => intro i0 s j _; exact ⟨rfl, rfl⟩
+  | cons p ys ih =>
+    intro i0 s j hj
+    obtain ⟨y, e⟩ := p
+    simp only [DE.selectAll]
+    have h1 := ih (i0 + 1) (s.select i0 y e) j (by omega)
+    rcases DE.select_slot s i0 y e j with h | h
+    · exact ⟨h1.1.trans h.1, h1.2.trans h.2⟩
+    · omega
+
+/-- one generation of selections: a slot either keeps member and energy, or it was its own trial, strictly lower,
+that replaced it (member := trial, energy := trial energy) -/
+theorem DE.selectAll_slot [LT E] [DecidableLT E] :
+    ∀ (ys : List (X × E)) (i0 : Nat) (s : DE X E) (j : Nat), s.pop.length = s.popE.length →
+      ((DE.selectAll ys i0 s).pop[j]? = s.pop[j]? ∧ (DE.selectAll ys i0 s).popE[j]? = s.popE[j]?) ∨
+      (i0 ≤ j ∧ ∃ y e ej, ys[j - i0]? = some (y, e) ∧ s.popE[j]? = some ej ∧ e < ej ∧
+        (DE.selectAll ys i0 s).pop[j]? = some y ∧ (DE.selectAll ys i0 s).popE[j]? = some e) := by
+  intro ys
+  induction ys with
+  | nil => intro i0 s j _; exact Or.inl ⟨rfl, rfl⟩
+  | cons p ys ih =>
+    intro i0 s j hlen
+    obtain ⟨y, e⟩ := p
+    simp only [DE.selectAll]
+    have hl := DE.select_lengths s i0 y e
+    have hlen' : (s.select i0 y e).pop.length = (s.select i0 y e).popE.length := by rw [hl.1, hl.2, hlen]
+    by_cases hj : j = i0
+    · subst hj
+      have hb := DE.selectAll_below ys (j + 1) (s.select j y e) j (by omega)
+      rcases DE.select_slot s j y e j with h | ⟨_, ei, hei, hlt, hp, hpe⟩
+      · exact Or.inl ⟨hb.1.trans h.1, hb.2.trans h.2⟩
+      · have hjl : j < s.popE.length := by
+          rcases Nat.lt_or_ge j s.popE.length with h | h
+          · exact h
+          · rw [List.getElem?_eq_none h] at hei; cases hei
+        refine Or.inr ⟨Nat.le_refl _, y, e, ei, by simp, hei, hlt, ?_, ?_⟩
+        · rw [hb.1, hp, List.getElem?_set_self (by omega)]
+        · rw [hb.2, hpe, List.getElem?_set_self hjl]
+    · rcases ih (i0 + 1) (s.select i0 y e) j hlen' with h | ⟨hle, y', e', ej, hy, hej, hlt, hp, hpe⟩
+      · rcases DE.select_slot s i0 y e j with h2 | h2
+        · exact Or.inl ⟨h.1.trans h2.1, h.2.trans h2.2⟩
+        · exact absurd h2.1 hj
+      · rcases DE.select_slot s i0 y e j with h2 | h2
+        · refine Or.inr ⟨by omega, y', e', ej, ?_, h2.2 ▸ hej, hlt, hp, hpe⟩
+          have : j - i0 = (j - (i0 + 1)) + 1 := by omega
+          rw [this, List.getElem?_cons_succ]; exact hy
+        · exact absurd h2.1 hj
+
+/-- the (constrained trial, energy) list DE2 builds: the energy of each is the decorated objective there -/
+theorem DE.evalAll_fst (o : Obj X E) :
+    ∀ (ts : List X) (log : List (X × E)), (DE.evalAll o ts log).1 = ts.map (fun t => (o.K t, o.energy (o.K t))) := by
+  intro ts
+  induction ts with
+  | nil => intro log; rfl
+  | cons t ts ih => intro log; simp only [DE.evalAll, List.map_cons, ih, objAt_fst]
+
+end MysticVerif.Solver
